@@ -167,10 +167,16 @@ func main() {
 			jobs = append(jobs, job{sub, c.String()})
 		}
 	}
+	delivered := 0
 	runJobs(r.OutDir, jobs, 120, r.Scale, func(j job, res *result) bool {
 		flush(r, j.Sub, res)
 		// enough evidence: every further failing case costs its full wait bounds
-		if len(r.Findings) >= 24 {
+		delivered++
+		limit := 24
+		if hangConfirmedInRun() && delivered <= 2*len(r.Findings) {
+			limit = 12 // (nearly) every case hangs: each further one costs seconds, a dozen findings say what there is to say
+		}
+		if len(r.Findings) >= limit {
 			r.Count("aborted-after-many-findings")
 
 			return false
